@@ -407,12 +407,14 @@ thread_local! {
 
 /// C11: what an execution allocates is bounded by what its weight pays for.  The bounds are generous multiples of
 /// what the unchanged interpreter needs (see DESIGN): 16 KiB + 2 KiB per unit of weight in total, and no single
-/// allocation beyond 32 KiB plus the size of the inputs (the unchanged interpreter stays below 4 KiB: ropes are chunked).
+/// allocation beyond 32 KiB plus the size of the inputs plus twice the weight (the unchanged interpreter stays below 4 KiB
+/// - ropes are chunked - except when `Hash`/`SigEOk` flatten an operand within their declared, paid-for length).
 pub fn alloc_fact(out: &mut Out) {
     let (total, max, w, insz) = LAST_ALLOC.with(|c| c.get());
     let w64 = w.min(u64::MAX as u128 / 4096) as u64;
     let ok_total = total <= 16384 + 2048 * w64 + 8 * insz;
-    let ok_max = max <= 32768 + 4 * insz;
+    // a single allocation may be as large as what a length-guarded instruction is allowed to flatten, which its weight pays for
+    let ok_max = max <= 32768 + 4 * insz + 2 * w64;
     out.fact("C11", "allocation-bounded-by-weight", ok_total && ok_max, &format!("allocated={} largest={} weight={} input-bytes={}", total, max, w, insz));
 }
 
@@ -607,6 +609,49 @@ pub fn exec(r: &mut Rng, n: usize, thorough: bool, out: &mut Out) {
         fixed.push((with(rope.clone(), vec![BLength]), HashMap::new()));
         fixed.push((with(rope.clone(), vec![Dup, Eql]), HashMap::new()));
         fixed.push((with(rope.clone(), vec![PushIC(0u8.into()), Eql]), HashMap::new()));
+    }
+    // the three instructions that flatten ropes, at every boundary of their length guards (C11: what is flattened is what
+    // the model's `flat` says, site by site; a guard moved behind its flattening, or compared in a narrower type, shows here)
+    {
+        // ops leaving a byte string of length n on the stack (a literal up to 255 bytes, a doubled and sliced rope beyond)
+        let bytes_of_len = |n: usize, fill: u8| -> Vec<OpCode> {
+            if n <= 255 {
+                vec![PushB(vec![fill; n])]
+            } else {
+                let mut k = 0u16;
+                while (64usize << k) < n {
+                    k += 1;
+                }
+                vec![PushI((n as u64).into()), PushIC(0u8.into()), PushB(vec![fill; 64]), Loop(k, 2), Dup, BAppend, BSlice]
+            }
+        };
+        for n in [0u16, 1, 32, 255, 256, 1000, 65535] {
+            for d in [-1i64, 0, 1] {
+                let l = n as i64 + d;
+                if l < 0 {
+                    continue;
+                }
+                let mut p = bytes_of_len(l as usize, 0x11);
+                p.push(Hash(n));
+                fixed.push((p, HashMap::new()));
+                // SigEOk(n): signature, public key, message (top)
+                for (pkl, sigl) in [(32usize, 64usize), (32, 65), (32, 0), (31, 64), (33, 64), (0, 64), (5, 70)] {
+                    if n > 1000 && (pkl, sigl) != (32, 64) {
+                        continue;
+                    }
+                    let mut p = bytes_of_len(sigl, 0x22);
+                    p.extend(bytes_of_len(pkl, 0x33));
+                    p.extend(bytes_of_len(l as usize, 0x44));
+                    p.push(SigEOk(n));
+                    fixed.push((p, HashMap::new()));
+                }
+            }
+        }
+        for l in [0usize, 31, 32, 33, 256, 65536, 65568] {
+            let mut p = bytes_of_len(l, 0x55);
+            p.push(BtoI);
+            fixed.push((p, HashMap::new()));
+        }
     }
     // success and type-failure paths that random typed programs rarely reach (found by line coverage of the executor)
     {
